@@ -76,6 +76,14 @@ def expect_cols(ctx, it, qual, frame, expected, unchanged=None, samplers=None, w
             ctx.finding(qual, f"column {cname}", f"{what}: column {cname!r} is missing from the resulting table", fn, m)
             continue
         got = frame.cols[cname]
+        nar = [n for n in tm.walk(got) if n.op == "narrow"]
+        if nar and not any(n.op == "narrow" for n in tm.walk(want.term if isinstance(want, Rel) else want)):
+            node = last_store(it, frame, cname) or fn
+            ctx.finding(qual, node if node is not fn else f"final value of column {cname}",
+                        f"{what}: the values of column {cname!r} pass through an array of type {tm.cval(nar[0].args[1])} on their way "
+                        "(allocated with a narrower dtype than the table's float64): they come out rounded to that type", node, m)
+            ctx.count(1)
+            continue
         rel = want if isinstance(want, Rel) else None
         if rel is not None:
             want = rel.term
